@@ -34,6 +34,7 @@ func IteInt(c bool, a, b int) int { return a }
 func IteU64(c bool, a, b uint64) uint64 { return a }
 func BytesEq(a, b []byte) bool    { return false }
 func Symbolic() bool              { return true }
+func IsConst(x uint64) bool       { return false }
 func Yield()                      {}
 func ClockAdvance(d time.Duration) {}
 func NumGoroutines() int          { return 0 }
